@@ -166,3 +166,26 @@ m("x2-atomic-store-mark-before", "C16,C05", VM, "            r.store(val.into(),
 m("x2-try-access-hole-ok0", "C03", GM, "        if total == 0 {\n            Err(Error::InvalidGuestAddress(addr))", "        if total == 0 && count == 0 {\n            Err(Error::InvalidGuestAddress(addr))", "?")
 m("x2-checked-align-assert-removed", "C19", "src/address.rs", "        assert_eq!(power_of_two & mask, Self::zero());\n        self.checked_add(mask).map(|x| x & !mask)", "        self.checked_add(mask).map(|x| x & !mask)", "?")
 m("x2-bitmap-reset-release-skip", "C09", AB, "        for it in self.map.iter() {\n            it.store(0, Ordering::Release);\n        }", "        for it in self.map.iter().skip(1) {\n            it.store(0, Ordering::Release);\n        }", "?")
+
+# ---- exploratory batch 3 ----
+m("x3-offset-bitmap-zero", "C05", VM, "                new_size,\n                self.bitmap.slice_at(count),", "                new_size,\n                self.bitmap.slice_at(0),", "?")
+m("x3-offset-size-not-reduced", "C01", VM, "                self.addr.add(count),\n                new_size,", "                self.addr.add(count),\n                self.size,", "?")
+m("x3-array-ref-n-bytes", "C01", VM, "                slice.addr,\n                n,\n                slice.bitmap,", "                slice.addr,\n                nbytes as usize,\n                slice.bitmap,", "?")
+m("x3-unix-get-slice-bitmap", "C05", UX, "                    count,\n                    self.bitmap.slice_at(offset),\n                    None,", "                    count,\n                    self.bitmap.slice_at(0),\n                    None,", "?")
+m("x3-unix-get-slice-addr", "C01", UX, "                    self.addr.add(offset),\n                    count,", "                    self.addr.add(count),\n                    count,", "?")
+m("x3-copy-to-count-bytes", "C04", VM, "            let count = self.size / size_of::<T>();\n            let source = self.get_array_ref::<T>(0, count).unwrap();\n            source.copy_to(buf)", "            let count = self.size / size_of::<T>();\n            let source = self.get_array_ref::<T>(0, count).unwrap();\n            source.copy_to(buf) * size_of::<T>()", "?")
+m("x3-check-range-prefix", "C02", GM, "            Ok(count) => count == len,", "            Ok(count) => count == len || count > 0,", "?")
+m("x3-num-regions-plus", "C02", MM, "        self.regions.len()\n    }", "        self.regions.len().max(1)\n    }", "?")
+m("x3-region-len-minus", "C02", MM, "        self.mapping.size() as GuestUsize\n    }", "        (self.mapping.size() as GuestUsize).saturating_sub(1)\n    }", "?")
+m("x3-to-region-addr-other", "C02", GM, "            .map(|r| (r, r.to_region_addr(addr).unwrap()))", "            .map(|r| (r, r.to_region_addr(r.start_addr()).unwrap()))", "?")
+m("x3-setbit-nonatomic", "C08", AB, "        self.map[index >> 6].fetch_and(!(1 << (index & 63)), Ordering::SeqCst);", "        let w = &self.map[index >> 6];\n        w.store(w.load(Ordering::SeqCst) & !(1 << (index & 63)), Ordering::SeqCst);", "?")
+m("x3-range-set-xor", "C08,C09", AB, "                self.map[n >> 6].fetch_or(1 << (n & 63), Ordering::SeqCst);", "                self.map[n >> 6].fetch_xor(1 << (n & 63), Ordering::SeqCst);", "?")
+m("x3-dirty-at-marks", "C16", "src/bitmap/backend/atomic_bitmap.rs", "    fn dirty_at(&self, offset: usize) -> bool {\n        self.is_addr_set(offset)", "    fn dirty_at(&self, offset: usize) -> bool {\n        self.set_addr_range(offset, 1);\n        self.is_addr_set(offset)", "?")
+m("x3-read-slice-marks", "C16", VM, "        let len = self.read(buf, addr)?;", "        let len = self.read(buf, addr)?;\n        self.bitmap.mark_dirty(addr, len);", "?")
+m("x3-empty-write-err-at-end", "C18", VM, "        if buf.is_empty() {\n            return Ok(0);\n        }\n\n        if addr >= self.size {\n            return Err(Error::OutOfBounds { addr });\n        }\n\n        // NOTE: the duality", "        if buf.is_empty() && addr <= self.size {\n            return Ok(0);\n        }\n\n        if addr >= self.size {\n            return Err(Error::OutOfBounds { addr });\n        }\n\n        // NOTE: the duality", "?")
+m("x3-checked-sub-add", "C19", "src/address.rs", "                self.0.checked_sub(other).map($T)", "                self.0.checked_add(other.wrapping_neg()).map($T)", "?")
+m("x3-unchecked-offset-from-swapped", "C19", "src/address.rs", "        self.raw_value() - base.raw_value()", "        base.raw_value() - self.raw_value()", "?")
+m("x3-to-native-identity", "C20", "src/endian.rs", "                $old_type::$from_new(self.0)", "                self.0", "?")
+m("x3-guard-len-sizeof-ptr", "C17", VM, "        PtrGuard::read(self.mmap, self.addr as *mut u8, self.len())", "        PtrGuard::read(self.mmap, self.addr as *mut u8, size_of::<usize>())", "?")
+m("x3-try-access-start-offset", "C03", GM, "            match f(total, len as usize, start, region) {", "            match f(0, len as usize, start, region) {", "?")
+m("x3-ref-load-nonvolatile-guardless", "C17", VM, "        let guard = self.ptr_guard();\n\n        // SAFETY: Safe because we checked the address and size when creating this VolatileRef.\n        // For the purposes", "        let guard = self.ptr_guard();\n        drop(guard);\n        let guard = PtrGuard::read(None, self.addr as *mut u8, self.len());\n\n        // SAFETY: Safe because we checked the address and size when creating this VolatileRef.\n        // For the purposes", "?")
